@@ -29,6 +29,8 @@ func (g *Gen) schemaCheck(o *Occ) {
 		n++
 	}
 	w(`vrt.Assert("C02/"+path+":attribute-count", len(as) == %d)`, n)
+	// C10: besides the fields' attributes there are exactly the injected attributes configured for this path
+	w(`vrt.Assert("C10/"+path+":only-the-configured-injected-attributes", len(as) == %d)`, n)
 	flags := func(name string, req, comp, sens bool, desc string, nval, npm int) {
 		w(`  vrt.Assert("C10/"+path+"/%s:required", a.Required == %v)`, name, req)
 		w(`  vrt.Assert("C10/"+path+"/%s:optional", a.Optional == %v)`, name, !req)
